@@ -6,9 +6,10 @@ import (
 	"github.com/ava-labs/hypersdk/state"
 )
 
-// c04opt is the reference model's cell: absent or a 1-byte value.
+// c04opt is the reference model's cell: absent, the empty value (e; a legal value distinct from absence), or a 1-byte value.
 type c04opt struct {
 	ok bool
+	e  bool
 	v  byte
 }
 
@@ -29,11 +30,17 @@ func c04read(v *TStateView, vis *[c04MaxKeys]c04opt, nk int, where string) {
 			verifFail(where + "-written-key-missing")
 		}
 		if err == nil {
-			if len(got) != 1 {
-				verifFail(where + "-value-length")
-			}
-			if got[0] != vis[kk].v {
-				verifFail(where + "-wrong-value")
+			if vis[kk].e {
+				if len(got) != 0 {
+					verifFail(where + "-value-length")
+				}
+			} else {
+				if len(got) != 1 {
+					verifFail(where + "-value-length")
+				}
+				if got[0] != vis[kk].v {
+					verifFail(where + "-wrong-value")
+				}
 			}
 		}
 	}
@@ -50,10 +57,14 @@ func VerifC04History() {
 	base := map[string][]byte{}
 	var under [c04MaxKeys]c04opt
 	for i := 0; i < nk; i++ {
-		if verifChoose("base", 2) == 1 {
+		switch verifChoose("base", 2+verifParam("emptyBaseValues", 0, 1)) {
+		case 1:
 			b := verifU8("basev")
 			base[string(c04key(i))] = []byte{b}
-			under[i] = c04opt{true, b}
+			under[i] = c04opt{ok: true, v: b}
+		case 2:
+			base[string(c04key(i))] = []byte{}
+			under[i] = c04opt{ok: true, e: true}
 		}
 	}
 	ts := New(0)
@@ -67,7 +78,7 @@ func VerifC04History() {
 			if err := v0.Insert(ctx, c04key(i), []byte{b}); err != nil {
 				verifFail("setup-insert-error")
 			}
-			under[i] = c04opt{true, b}
+			under[i] = c04opt{ok: true, v: b}
 		case 2:
 			if err := v0.Remove(ctx, c04key(i)); err != nil {
 				verifFail("setup-remove-error")
@@ -84,7 +95,11 @@ func VerifC04History() {
 		e, ok := ts.ChangedKeys()[string(c04key(i))]
 		blkHas[i] = ok
 		if ok && e.HasValue() {
-			blkVal[i] = c04opt{true, e.Value()[0]}
+			if len(e.Value()) == 0 {
+				blkVal[i] = c04opt{ok: true, e: true}
+			} else {
+				blkVal[i] = c04opt{ok: true, v: e.Value()[0]}
+			}
 		}
 	}
 
@@ -100,14 +115,22 @@ func VerifC04History() {
 	ncp := 1
 	n := 1 + verifChoose("n", maxOps)
 	for i := 0; i < n; i++ {
-		switch verifChoose("op", 4) {
+		switch verifChoose("op", 5) {
+		case 4:
+			// insert the empty value: present, distinct from a delete
+			k := verifChoose("key", nk)
+			if err := v.Insert(ctx, c04key(k), []byte{}); err != nil {
+				verifFail("insert-error")
+			}
+			vis[k] = c04opt{ok: true, e: true}
+			verifReach("empty-value")
 		case 0:
 			k := verifChoose("key", nk)
 			b := verifU8("insv")
 			if err := v.Insert(ctx, c04key(k), []byte{b}); err != nil {
 				verifFail("insert-error")
 			}
-			vis[k] = c04opt{true, b}
+			vis[k] = c04opt{ok: true, v: b}
 		case 1:
 			k := verifChoose("key", nk)
 			if err := v.Remove(ctx, c04key(k)); err != nil {
@@ -142,11 +165,17 @@ func VerifC04History() {
 				verifFail("commit-wrong-kind")
 			}
 			if vis[i].ok {
-				if len(e.Value()) != 1 {
-					verifFail("commit-wrong-value")
-				}
-				if e.Value()[0] != vis[i].v {
-					verifFail("commit-wrong-value")
+				if vis[i].e {
+					if len(e.Value()) != 0 {
+						verifFail("commit-wrong-value")
+					}
+				} else {
+					if len(e.Value()) != 1 {
+						verifFail("commit-wrong-value")
+					}
+					if e.Value()[0] != vis[i].v {
+						verifFail("commit-wrong-value")
+					}
 				}
 			}
 			verifReach("published")
@@ -160,8 +189,17 @@ func VerifC04History() {
 					verifFail("commit-altered-unchanged-key")
 				}
 				if blkVal[i].ok {
-					if e.Value()[0] != blkVal[i].v {
-						verifFail("commit-altered-unchanged-key")
+					if blkVal[i].e {
+						if len(e.Value()) != 0 {
+							verifFail("commit-altered-unchanged-key")
+						}
+					} else {
+						if len(e.Value()) != 1 {
+							verifFail("commit-altered-unchanged-key")
+						}
+						if e.Value()[0] != blkVal[i].v {
+							verifFail("commit-altered-unchanged-key")
+						}
 					}
 				}
 			}
